@@ -2,6 +2,8 @@ package main
 
 import (
 	"github.com/google/rpmpack"
+	"github.com/goreleaser/nfpm/v2/files"
+	"time"
 
 	"bufio"
 	"fmt"
@@ -568,37 +570,16 @@ func genTypes() (string, error) {
 	} else {
 		return "", fmt.Errorf("PrepareForPackager not found")
 	}
-	// isRelevantForPackager: collect (packager literal, op, type consts) from the if conditions
-	if fd := fs.funcDecl("isRelevantForPackager"); fd != nil {
-		var rows []string
-		for _, st := range fd.Body.List {
-			is, ok := st.(*ast.IfStmt)
-			if !ok {
-				continue
-			}
-			var pk string
-			var types []string
-			ast.Inspect(is.Cond, func(n ast.Node) bool {
-				be, ok := n.(*ast.BinaryExpr)
-				if !ok {
-					return true
-				}
-				if (be.Op == token.NEQ || be.Op == token.EQL) && fullSel(be.X) == "packager" {
-					if v, ok := unquote(be.Y); ok {
-						pk = be.Op.String() + v
-					}
-				}
-				if be.Op == token.EQL && fullSel(be.X) == "content.Type" {
-					types = append(types, resolveCase(fullSel(be.Y), consts))
-				}
-				return true
-			})
-			if pk != "" && len(types) > 0 {
-				sort.Strings(types)
-				rows = append(rows, fmt.Sprintf("(%s, %s)", leanStr(pk), leanStrList(types)))
-			}
+	// relevance (files.isRelevantForPackager): not read off the syntax but tabulated by running today's
+	// files.PrepareForPackager on one entry per (packager, type, packager tag) – robust against any rewriting of the
+	// function, exact about what it decides
+	{
+		rules, table, err := tabulateRelevance(consts)
+		if err != nil {
+			return "", err
 		}
-		fmt.Fprintf(&b, "def relevanceRules : List (Bytes × List Bytes) := [%s]\n", strings.Join(rows, ", "))
+		b.WriteString(rules)
+		b.WriteString(table)
 	}
 
 	// per packager switch arms
@@ -662,4 +643,84 @@ func genTypes() (string, error) {
 	}
 	b.WriteString("end Nfpm.Generated\n")
 	return b.String(), nil
+}
+
+// tabulateRelevance runs files.PrepareForPackager on a single entry for every packager x content type x packager
+// tag and records whether the entry is planned ("in"), left out ("out") or rejected ("error").
+func tabulateRelevance(consts map[string]string) (string, string, error) {
+	tmp, err := os.MkdirTemp("", "g3rel-")
+	if err != nil {
+		return "", "", err
+	}
+	defer os.RemoveAll(tmp)
+	if err := os.MkdirAll(filepath.Join(tmp, "t", "inner"), 0o755); err != nil {
+		return "", "", err
+	}
+	for _, f := range []string{"f", "t/inner/g"} {
+		if err := os.WriteFile(filepath.Join(tmp, f), []byte("x"), 0o644); err != nil {
+			return "", "", err
+		}
+	}
+	var types []string
+	seen := map[string]bool{}
+	for name, v := range consts {
+		if strings.HasPrefix(name, "Type") && !seen[v] {
+			seen[v] = true
+			types = append(types, v)
+		}
+	}
+	sort.Strings(types)
+	packagers := []string{"apk", "archlinux", "deb", "ipk", "rpm"}
+	tags := append([]string{""}, packagers...)
+	type key struct{ p, t, tag string }
+	out := map[key]string{}
+	var rows []string
+	for _, p := range packagers {
+		for _, t := range types {
+			for _, tag := range tags {
+				c := &files.Content{Source: filepath.Join(tmp, "f"), Destination: "/relx/entry", Type: t, Packager: tag}
+				switch t {
+				case "tree":
+					c.Source = filepath.Join(tmp, "t")
+				case "symlink":
+					c.Source = "/target"
+				case "dir", "implicit dir", "ghost":
+					c.Source = ""
+				}
+				res, err := files.PrepareForPackager(files.Contents{c}, 0o022, p, false, time.Unix(1700000000, 0))
+				o := "out"
+				if err != nil {
+					o = "error"
+				} else {
+					for _, r := range res {
+						if strings.HasPrefix(r.Destination, "/relx/entry") {
+							o = "in"
+						}
+					}
+				}
+				out[key{p, t, tag}] = o
+				rows = append(rows, fmt.Sprintf("  (%s, %s, %s, %s)", leanStr(p), leanStr(t), leanStr(tag), leanStr(o)))
+			}
+		}
+	}
+	// the two documented rules, derived from the table: types planned (untagged) by exactly one packager
+	only := func(owner string) []string {
+		var ts []string
+		for _, t := range types {
+			ok := out[key{owner, t, ""}] == "in"
+			for _, p := range packagers {
+				if p != owner && out[key{p, t, ""}] != "out" {
+					ok = false
+				}
+			}
+			if ok {
+				ts = append(ts, t)
+			}
+		}
+		sort.Strings(ts)
+		return ts
+	}
+	rules := fmt.Sprintf("def relevanceRules : List (Bytes × List Bytes) := [(%s, %s), (%s, %s)]\n", leanStr("!=rpm"), leanStrList(only("rpm")), leanStr("!=deb"), leanStrList(only("deb")))
+	table := "/-- files.PrepareForPackager on one entry at /relx/entry: (packager, type, packager tag, in | out | error) -/\ndef relevanceTable : List (Bytes × Bytes × Bytes × Bytes) := [\n" + strings.Join(rows, ",\n") + "\n]\n"
+	return rules, table, nil
 }
